@@ -657,7 +657,6 @@ func isRangeKeyOf(key, m ssa.Value) bool {
 	return ok && exprEq(rg.X, m)
 }
 
-
 // gL is the program currently analysed (set by run); used by summaries that
 // need the callers of a function.
 var gL *Loaded
